@@ -136,6 +136,7 @@ type Machine struct {
 	syncMaps  map[*value]*mapV
 	pools     map[*value][]value
 	files     map[*value]*fileState
+	afterFuncs map[*value]*afterFuncState
 	syncVC    map[hbKey]vclock
 	mapRaces  map[*mapV]*mapRaceState
 	sliceRaces map[*value]*mapRaceState
@@ -713,6 +714,7 @@ func (m *Machine) resetPath() {
 	m.syncMaps = map[*value]*mapV{}
 	m.pools = map[*value][]value{}
 	m.files = map[*value]*fileState{}
+	m.afterFuncs = map[*value]*afterFuncState{}
 	m.syncVC = map[hbKey]vclock{}
 	m.mapRaces = map[*mapV]*mapRaceState{}
 	m.sliceRaces = map[*value]*mapRaceState{}
